@@ -438,8 +438,3 @@ Proof.
   - vm_compute. reflexivity.
 Qed.
 
-Print Assumptions dominance_terminates.
-Print Assumptions dominates_iff.
-Print Assumptions dominates_refl.
-Print Assumptions strictly_dominates_iff.
-Print Assumptions dominance_old_refuted.
